@@ -5,10 +5,13 @@ cd "$(dirname "$0")"
 export GOFLAGS=-mod=mod GOPROXY=off
 unset GOTOOLCHAIN GOSUMDB || true
 mkdir -p evidence replays
-cd coq
+cd harness
+cp /repo/go.sum go.sum
+go build -tags verif -o ../.hlimpl-setup .
+# Unicode tables of the Go toolchain that builds /repo (IsLetter, IsDigit, ToLower)
+../.hlimpl-setup -prop genunicode -out ../coq/theories/Lib
+rm -f ../.hlimpl-setup
+cd ../coq
 coq_makefile -f _CoqProject -o Makefile
 timeout 3000 make -j16
-cd ../harness
-cp /repo/go.sum go.sum
-go build -tags verif -o /dev/null .
 echo "setup ok"
